@@ -446,3 +446,48 @@ Qed.
 Example file_fresh_example :
   file_fresh {| c_cap := 1; c_max := 0 |} (file_init [], []) [Add [97%N] 0%Z 0%N 10%N; Add [97%N] 1%Z 1%N 20%N; Lst [97%N]].
 Proof. simpl. repeat split; intros H; simpl in H; try tauto; vm_compute in H; intuition discriminate. Qed.
+
+(* ------------------------------------------------------------------ re-opening with another cap *)
+(** Freshness of the ids over a segmented history (the environment hypothesis, per segment). *)
+Fixpoint file_fresh_segs (st : file_store * issued fid) (segs : list (scfg * list op)) : Prop :=
+  match segs with
+  | [] => True
+  | (cfg, ops) :: r => c_max cfg = 0%N /\ file_fresh cfg st ops /\ file_fresh_segs (final_file_from cfg st ops) r
+  end.
+
+Lemma file_segs_sim : forall segs st s iss, RF st s iss -> SInv st -> file_fresh_segs (s, iss) segs ->
+  run_file_segs (s, iss) segs = run_spec_segs st segs.
+Proof.
+  induction segs as [|[cfg ops] r IH]; intros st s iss HR HI Hf; [reflexivity|].
+  destruct Hf as [Hm [Hf1 Hf2]]. cbn [run_file_segs run_spec_segs].
+  destruct (file_run_sim cfg Hm ops st s iss HR HI Hf1) as [H1 H2].
+  unfold run_file_from. rewrite H1. f_equal.
+  unfold final_file_from in *. revert H2 Hf2.
+  destruct (final_impl fid fid_eqb file_store (exec_file cfg) (s, iss) ops) as [s' iss']. intros H2 Hf2.
+  apply IH; [exact H2 | apply final_spec_SInv; exact HI | exact Hf2].
+Qed.
+
+(** [file_refines_spec_reopened]: a history in segments, the file store re-opened on the same
+    path with another cap between them (n -> smaller n, 0 -> n, n -> 0 -> n, …): segment by
+    segment and operation by operation the file-store model answers as the abstract store run
+    with the same caps. In particular (cap_keeps_newest holds for ANY state) a mailbox that holds
+    more than the new cap keeps them until its next delivery, which leaves exactly the newest cap. *)
+Theorem file_refines_spec_reopened ticks segs :
+  file_fresh_segs (file_init ticks, []) segs ->
+  run_file_segs (file_init ticks, []) segs = run_spec_segs spec_init segs.
+Proof. intros H. apply file_segs_sim; auto using RF_init, SInv_init. Qed.
+
+Example reopened_example :
+  let a := [97%N] in
+  run_file_segs (file_init [], [])
+    [ ({| c_cap := 0; c_max := 0 |}, [Add a 1%Z 0%N 10%N; Add a 2%Z 1%N 10%N; Add a 3%Z 2%N 10%N; Add a 4%Z 3%N 10%N; Add a 5%Z 4%N 10%N]);
+      ({| c_cap := 3; c_max := 0 |}, [Lst a; Add a 6%Z 5%N 10%N; Lst a]) ] =
+  run_spec_segs spec_init
+    [ ({| c_cap := 0; c_max := 0 |}, [Add a 1%Z 0%N 10%N; Add a 2%Z 1%N 10%N; Add a 3%Z 2%N 10%N; Add a 4%Z 3%N 10%N; Add a 5%Z 4%N 10%N]);
+      ({| c_cap := 3; c_max := 0 |}, [Lst a; Add a 6%Z 5%N 10%N; Lst a]) ] /\
+  map (fun p => match fst p with OList l => map fst l | _ => [] end)
+      (nth 1 (run_spec_segs spec_init
+        [ ({| c_cap := 0; c_max := 0 |}, [Add a 1%Z 0%N 10%N; Add a 2%Z 1%N 10%N; Add a 3%Z 2%N 10%N; Add a 4%Z 3%N 10%N; Add a 5%Z 4%N 10%N]);
+          ({| c_cap := 3; c_max := 0 |}, [Lst a; Add a 6%Z 5%N 10%N; Lst a]) ]) [])
+  = [[0; 1; 2; 3; 4]; []; [3; 4; 5]].     (* five kept until the next delivery, then exactly the newest three: D E F *)
+Proof. vm_compute. split; reflexivity. Qed.
